@@ -46,7 +46,8 @@ def rv(r):
 
 
 def main():
-    p = facts.load('/repo', use_cache=True)
+    import os
+    p = facts.load(os.environ.get('MIRPP_REPO', '/repo'), use_cache=True)
     for pat in sys.argv[1:]:
         for fn in sorted(p.bodies):
             if pat not in fn:
